@@ -17,7 +17,7 @@ ASSUME = ["convention (DESIGN 5/C11): tensors are indexed [input, output], leftm
           "bounded: circuits of the exhaustive model (MaxQ, MaxLayers), simulated deeper circuits, all rewirings on "
           "at most 4 qubits"]
 CONST = {"quick": {"MaxQ": 2, "MaxLayers": 2, "replay": 450, "sim": (3, 4, 40)},
-         "thorough": {"MaxQ": 2, "MaxLayers": 2, "replay": 9081, "sim": (3, 6, 3000)}}
+         "thorough": {"MaxQ": 2, "MaxLayers": 2, "replay": 9081, "sim": (3, 6, 600)}}
 
 
 def flat(arr):
